@@ -234,6 +234,8 @@ func vsAnyLockHeld() bool
 func vsRunUntilBlocked(f func()) bool
 func vsSetLockHook(f func(lock string))
 func vsTrack(p interface{}, name string)
+func vsProvablyEqual(a, b []byte) bool
+func vsProvablyDifferent(a, b []byte) bool
 `
 
 func loadProgram(cfg *PropCfg, hdir string) (*ssa.Program, []*ssa.Package, map[string]*ssa.Package) {
